@@ -356,8 +356,69 @@ ARG_SHAPES = ["p1_optint_d", "p1_optbool_f", "p2_d_then_optd", "p1_int", "p1_int
               "p2_d_then_plain", "p2_plain_then_d", "p1_kwargs", "p0", "p3_mixed"]
 
 
+GRID_CFGS = {
+    "execfn_A": ("exec_fn", "function", {"inline_types": True, "kwonly": False, "indent_level": 1}),
+    "execfn_B": ("exec_fn", "method", {"inline_types": True, "kwonly": True, "indent_level": 2}),
+    "execfn_C": ("exec_fn", "method", {"inline_types": False, "kwonly": False, "indent_level": 0, "ftype": "cls"}),
+    "bindfn_A": ("fn_binding", "function", {"inline_types": True, "kwonly": False, "indent_level": 1}),
+    "bindfn_D": ("fn_binding", "function", {"inline_types": False, "kwonly": True, "indent_level": 1}),
+    "execcls": ("exec_cls", None, {"emit_default_doc": True}),
+    "bindcls": ("cls_binding", None, {"emit_default_doc": False}),
+    "execarg": ("exec_argparse", None, {"emit_default_doc": True}),
+}
+
+
+def grid_known_region(cfg, rid, active):
+    """id of the open known finding whose region holds this generated row under this configuration, or None"""
+    from lib import grid as G
+    from lib.domain import ABSENT
+    from doctrans.ast_utils import NoneStr
+
+    _, params, ret = G.ROWS[rid]
+    es = [(t, d) for _, t, _, d in params] + ([(ret[0], ret[2])] if ret else [])
+    code = lambda d: isinstance(d, str) and d.startswith("```") and d != NoneStr  # noqa: E731
+    if any(t == "Union[int, str]" and d == 3 for t, d in es):
+        return "KF-RT-quote-nonstr-default"  # the emitters crash on it
+    if cfg in ("execcls", "bindcls"):
+        if any(t in ("int", "str", "float", "bool") and d == NoneStr for t, d in es):
+            return "KF-RT-class-none-to-zero"
+        if any(isinstance(d, str) and d == "" for t, d in es):
+            return "KF-RT-empty-str-default"
+    if cfg == "execarg" and any(code(d) for t, d in es):
+        return "KF-C06-code-default-as-str"
+    return None
+
+
+def grid_rows(tier, cfg):
+    from lib import grid as G
+
+    ids = [r for r in G.select(tier, salt=sorted(GRID_CFGS).index(cfg)) if cfg != "execarg" or G.argparse_expressible(r)]
+    size = 120 if tier == "quick" else 300
+    return [ids[i:i + size] for i in range(0, len(ids), size)]
+
+
+def grid_ob(quick, cfg, chunk, i, active):
+    i = realize(i)
+    with untraced():
+        rid = grid_rows("quick" if quick else "thorough", cfg)[chunk][i]
+        kid = grid_known_region(cfg, rid, active)
+        if kid is not None and kid in active:
+            return True
+        fn, kind, opts = GRID_CFGS[cfg]
+        f = globals()[fn]
+        return f(kind, rid, opts, active) if kind else f(rid, opts, active)
+
+
 def obligations(tier, seed):
     obs = []
+    for cfg in GRID_CFGS:
+        for c, ids in enumerate(grid_rows(tier, cfg)):
+            obs.append(Ob(name="grid_%s_%d" % (cfg, c), params=[("i", "int")], pre=["0 <= i < %d" % len(ids)],
+                          body="H.grid_ob(%r, %r, %d, i, {ACTIVE})" % (tier == "quick", cfg, c), witness=(0,), kind="F",
+                          bounds="generated shapes %s..%s (%d rows of lib/grid.py, table-indexed, content concrete); %s %s options %r; rows in the "
+                          "region of an open known finding (grid_known_region) are skipped" % (ids[0], ids[-1], len(ids), GRID_CFGS[cfg][0],
+                                                                                             GRID_CFGS[cfg][1] or "", GRID_CFGS[cfg][2]),
+                          timeout=300 if tier == "quick" else 1200, path_timeout=100, funcs=FUNCS))
     grid = [
         ("function", {"inline_types": True, "kwonly": False, "indent_level": 1}),
         ("method", {"inline_types": True, "kwonly": True, "indent_level": 2}),
